@@ -214,6 +214,19 @@ def noise_observations(m, seed):
         expo = np.log(var[0.25] / var[1.0]) / np.log(0.25)
         obs.append(dict(kind=stype, exponent=int(np.round(expo.mean())), exact=bool(np.allclose(expo, np.round(expo), atol=1e-9)),
                         percent=int(round(100 * float((var[1.0] / sig ** 2).mean())))))
+    # irregular sampling: alternating intervals 0.5 s / 1.5 s; every sample must scale with its own (backward) interval
+    n2 = 40001
+    st = np.cumsum(np.hstack([0.0, np.tile([0.5, 1.5], n2 // 2)]))
+    dts = np.hstack([st[1] - st[0], np.diff(st)])
+    for stype in ("rate", "increment"):
+        par = IS.Parameters(noise=sig, rng=(seed + 17) % (2 ** 31))
+        out = par.apply(pd.DataFrame(np.zeros((len(st), 3)), index=st, columns=["a", "b", "c"]), stype).values[1:]
+        d = dts[1:]
+        v_small, v_big = out[d == 0.5].var(axis=0), out[d == 1.5].var(axis=0)
+        expo = np.log(v_big / v_small) / np.log(3.0)
+        assumed = sig ** 2 * (1.5 ** (-1 if stype == "rate" else 1))
+        obs.append(dict(kind=stype + "_irregular", exponent=int(np.round(expo.mean())), exact=False,
+                        percent=int(round(100 * float((v_big / assumed).mean())))))
     # bias walk: variance q^2 t, measured at T/4 and T over many seeded runs
     q = np.array([0.5, 1.0, 2.0]); nrun = 700; rows = 65
     stamps = np.cumsum(np.hstack([0.0, np.tile([0.5, 1.5], rows // 2)]))      # irregular: total time 64
